@@ -125,6 +125,24 @@ def matches_known(known, prop, obname, inputs, native):
 
 def main(argv):
     if len(argv) >= 2 and argv[0] == "replay":
+        data = load_json(argv[1], {})
+        if "bounded_check" in data:
+            # a bounded-layer violation: re-run the module's own replay(inputs) if it has one
+            v = data.get("violation", {})
+            print(json.dumps(v, indent=1, default=repr))
+            try:
+                bm = importlib.import_module(data["bounded_check"])
+                if hasattr(bm, "replay"):
+                    r = bm.replay(v.get("inputs"))
+                    print("replay:", json.dumps(r, indent=1, default=repr))
+                    return 1 if r else 0
+            except Exception:
+                print(traceback.format_exc())
+            print("(no stand-alone replay for this bounded check: re-run ./check %s)" % data.get("property"))
+            return 1
+        if "spec_module" not in data:
+            print(json.dumps(data, indent=1, default=repr))
+            return 1
         res = run_replay_file(argv[1])
         print(json.dumps(res, indent=1))
         return 1 if res.get("reproduced") else 0
